@@ -68,10 +68,30 @@ class PropertyRun:
         job_meta = []
         trivial = 0
         self.targets = list(mod.TARGETS)
-        for qn in self.targets:
+        for tgt in self.targets:
+            variant, overrides = None, None
+            if isinstance(tgt, tuple):
+                qn, variant, overrides = tgt
+            else:
+                qn = tgt
+            saved = None
+            if overrides is not None:
+                saved = self.E.contracts.get(qn)
+                c2 = dict(saved or {})
+                c2.update({k: v for k, v in overrides.items() if not k.startswith("+")})
+                self.E.contracts[qn] = c2
+                inl = overrides.get("+inline", [])
+                self.E.inline_ok.update(inl)
+                removed = {k: self.E.contracts.pop(k) for k in inl if k in self.E.contracts}
             res = self.E.verify_function(qn, max_paths=getattr(mod, "MAX_PATHS", 4000))
+            if overrides is not None:
+                self.E.contracts[qn] = saved
+                self.E.contracts.update(removed)
+                self.E.inline_ok.difference_update(inl)
+                for ob in res["obligations"]:
+                    ob["name"] = ob["name"] + "[%s]" % variant
             fi = res.get("finfo")
-            self.functions.append(dict(qualname=qn, sha256=fi.sha if fi else None, lines=fi.nlines if fi else 0,
+            self.functions.append(dict(qualname=qn if variant is None else "%s[%s]" % (qn, variant), sha256=fi.sha if fi else None, lines=fi.nlines if fi else 0,
                                        paths=res["paths"], complete_paths=res["complete_paths"],
                                        outcomes=res.get("outcomes", {}),
                                        decorators=fi.decorators if fi else []))
